@@ -643,8 +643,11 @@ class SimulationParameters(JsonSerializable):
         ]
         aux = np.arange(0, self.get_num_unpacked_variations())
         aux.shape = dimensions
-        indexes = eval("aux" +
-                       "[{0}]".format(",".join(param_indexes))).flatten()
+        # (with no parameter marked to be unpacked there is nothing to
+        # index: the only variation has index 0)
+        indexes = aux[tuple(
+            slice(None) if i == ':' else int(i)
+            for i in param_indexes)].flatten()
         # xxxxxxxxxxxxxxxxxxxxxxxxxxxxxxxxxxxxxxxxxxxxxxxxxxxxxxxxxxxxxxxxx
         # if indexes.size == 1:
         #     indexes = indexes[0]
